@@ -1,7 +1,7 @@
 """C11 - primitive codecs: output clamping, accumulator capacity for every width, header polarity."""
 import ast
 
-from ..model import AnalysisError, callee, norm, src, walk_no_nested, iter_child_stmts, kwarg
+from ..model import AnalysisError, callee, norm, src, walk_no_nested, iter_child_stmts, kwarg, resolved
 from .. import rawstores
 from ..cfg import CFG, ReachingDefs
 from ..bitloops import Skeleton, control_independent_of_payload
@@ -149,9 +149,11 @@ def r113(ctx, m):
            and 'o.write_byte(width)' in src(ed) and 'width = data.values.dtype.itemsize * 8' in src(ed), '', wr.loc(ed))
     md = wr.func('make_definitions')
     s = src(md)
-    ctx.ob('R11.3', 'writer.make_definitions:RLE-run-header-is-count<<1', 'cencoding.encode_unsigned_varint(l << 1, temp)' in s, '', wr.loc(md))
+    # (the header expression with single-assignment temporaries written out: `l = len(data); f(l << 1)` = `f(len(data) << 1)`)
+    hdrs = [resolved(md, c.args[0]) for c in ast.walk(md) if isinstance(c, ast.Call) and (callee(c) or '').endswith('encode_unsigned_varint') and c.args]
+    ctx.ob('R11.3', 'writer.make_definitions:RLE-run-header-is-count<<1', 'len(data) << 1' in hdrs, 'headers written: %s' % hdrs, wr.loc(md))
     ctx.ob('R11.3', 'writer.make_definitions:bit-packed-run-header-is-bytes<<1|1',
-           'cencoding.encode_unsigned_varint(len(out) << 1 | 1, temp)' in s, 'one byte of packed booleans is one group of 8', wr.loc(md))
+           'len(out) << 1 | 1' in hdrs, 'one byte of packed booleans is one group of 8; headers written: %s' % hdrs, wr.loc(md))
     ctx.ob('R11.3', 'writer.make_definitions:v1-level-block-has-4-byte-length-prefix',
            "struct.pack('<I', temp.tell()) + temp.so_far()" in s and "struct.pack('<I', len(head) + len(out)) + head + out" in s, '', wr.loc(md))
 
@@ -214,7 +216,8 @@ def r115(ctx):
         body = arm[0].body
         texts = [norm(s) for s in body]
         d = str(texts[:4])
-        i_hdr = [i for i, t in enumerate(texts) if t == 'cencoding.encode_unsigned_varint(l << 1, temp)']
+        i_hdr = [i for i, s_ in enumerate(body) if isinstance(s_, ast.Expr) and isinstance(s_.value, ast.Call) and s_.value.args
+                 and (callee(s_.value) or '').endswith('encode_unsigned_varint') and resolved(md, s_.value.args[0]) == 'len(data) << 1']
         i_val = [i for i, t in enumerate(texts) if t == 'temp.write_byte(1)']
         i_ver = [i for i, s in enumerate(body) if isinstance(s, ast.If) and 'datapage_version' in norm(s.test)]
         ok = bool(i_hdr and i_val and i_ver) and i_hdr[0] < i_val[0] < i_ver[0]
